@@ -101,6 +101,32 @@ CLAIMED = {
          'compiled/uncompiled comparison.'),
    technique='Lean 4 proof of the fit/window/skip selection postconditions + exact model correspondence + strategy-equivalence differential test',
    design='4.C19'),
+ 'C08': dict(
+   text=('Lean 4 theorems (PbVerif.Props.C08) in exact rationals: coefficients converted by _poly_transform_matrix/_convert_coef evaluate '
+         'to the fitted polynomial for EVERY domain, order and x (binomial theorem), incl. the special-cased offset == 0 branch; the 2-D '
+         'version T_x C T_z\'; mapparms maps the intervals; and a coefficient vector satisfying the weighted normal equations minimises '
+         'the weighted squared distance, uniquely under full column rank (so "the unique least-squares polynomial" is a checkable '
+         'equation). Correspondence/certificates: transform matrices vs the exact model; for every polynomial method (poly, modpoly, '
+         'imodpoly, penalized_poly x 5 cost functions, quant_reg, goldindec, dietrich, loess coefficients, 2-D versions with max_cross, '
+         'fitter objects reused across orders) the returned coefficients are evaluated EXACTLY in rationals on the user\'s x (and z) and '
+         'must reproduce the returned baseline within a rounding budget derived from sum|c_j||x|^j; for poly the exact weighted normal-'
+         'equation residual must vanish relative to its scale; domains with offsets up to 1e12, scales 1e-9..1e5, negative, unsorted.'),
+   note=('Trusted: Lean kernel; axioms propext, Classical.choice, Quot.sound; harness. np.linalg.pinv/lstsq are black boxes certified only '
+         'on explored inputs; the mapped variable is taken as numpy computes it.'),
+   technique='Lean 4 proof of the coefficient transform and of normal-equations => unique minimiser + exact-rational certificates of real outputs',
+   design='4.C08'),
+ 'C18': dict(
+   text=('Lean 4 theorems (PbVerif.Props.C18) about exact-rational models of pad_edges (extrapolate mode), padded_convolve, kernel '
+         'normalisation and optimize_window: length N+2*pad and unchanged interior; window 1 repeats the edge value; the least-squares '
+         'line through exactly linear points is that line, hence linear data is continued exactly for every N >= 2, pad length and '
+         'windows >= 2 (also longer than the data); padded_convolve returns N points, p >= 1, and leaves constant data unchanged for any '
+         'normalised kernel no longer than the data; normalising a non-negative symmetric kernel keeps these and makes it sum to one; '
+         'optimize_window >= 1 for every outcome of its tests. Correspondence: pad_edges/pad_edges2d(extrapolate)/padded_convolve vs the '
+         'models; all NumPy modes for length/interior; planar continuation in 2-D; Gaussian/mollifier kernels; optimize_window values.'),
+   note=('Trusted: Lean kernel; axioms propext, Classical.choice, Quot.sound; harness. np.pad modes, Polynomial.fit/pinv and '
+         'scipy.signal.convolve are checked against the models on explored inputs; kernels\' exp values are float (laws checked directly).'),
+   technique='Lean 4 proof over exact-rational models of padding/convolution + correspondence',
+   design='4.C18'),
 }
 
 checks = []
